@@ -33,7 +33,7 @@ Fixpoint rb_children (visit : visit_fn) (p : path) (l : list (key * val)) : list
   | [] => []
   | (ky, c) :: r =>
       let c' := rebuild visit (p ++ [ky]) c in
-      opt_list (apply_action VLeaf (visit p ky c') ky c') ++ rb_children visit p r
+      opt_list (apply_action (fun x => x) (visit p ky c') ky c') ++ rb_children visit p r
   end.
 
 Lemma rebuild_node : forall visit p k items,
@@ -99,7 +99,7 @@ Section Tree.
 
   Lemma srb_dom : forall o, dom_ok o.
   Proof.
-    induction o as [n|id k items IH|id k|k|id k] using obj_ind2; unfold dom_ok;
+    induction o as [n|id k items IH|id k|k|id k|w] using obj_ind2; unfold dom_ok;
       intros rt p ky m lg v m' lg' E i Hi;
       try (cbn in E; inversion E; subst; reflexivity).
     - rewrite srb_node in E. destruct (t_get m id) eqn:G; [inversion E; subst; reflexivity|].
@@ -163,13 +163,14 @@ Section Tree.
 
   Lemma do_visit_erase : forall p ky v lg,
     eitems (opt_list (fst (do_visit visit p ky v lg))) =
-      opt_list (apply_action VLeaf (vfun visit p ky (erase v)) ky (erase v))
+      opt_list (apply_action (fun x => x) (vfun visit p ky (erase v)) ky (erase v))
     /\ evisits (snd (do_visit visit p ky v lg)) =
        evisits lg ++ match visit with Some _ => [(p, ky, erase v)] | None => [] end.
   Proof.
     intros. unfold do_visit, vfun. destruct visit as [f|]; cbn [fst snd].
     - split.
-      + destruct (f p ky (erase v)) as [|k' v']; cbn; [reflexivity|]. destruct k', v'; reflexivity.
+      + destruct (f p ky (erase v)) as [|k' v']; cbn; [reflexivity|].
+        destruct k', v' as [[n|kk it]|]; reflexivity.
       + unfold evisits. rewrite flat_map_app. reflexivity.
     - split; [reflexivity|]. rewrite app_nil_r. reflexivity.
   Qed.
@@ -232,7 +233,7 @@ Section Tree.
 
   Lemma srb_tree : forall o, tree_ok o.
   Proof.
-    induction o as [n|id k items IH|id k|k|id k] using obj_ind2; unfold tree_ok;
+    induction o as [n|id k items IH|id k|k|id k|w] using obj_ind2; unfold tree_ok;
       intros Ht Hnd rt p ky m lg v m' lg' Hm E; try discriminate.
     - cbn in E. inversion E; subst. cbn. unfold calls_opt. destruct visit; cbn; rewrite ?app_nil_r; split; try reflexivity.
       unfold evisits. rewrite flat_map_app. cbn. rewrite app_nil_r. reflexivity.
